@@ -85,7 +85,7 @@ func (c *FnCtx) applyContract(fr *frame, st *State, con *Contract, ca callArgs, 
 		pkg = ca.invoke.Pkg()
 	}
 	mk := func(cur, old *State) *evalCtx {
-		return &evalCtx{c: c, st: cur, old: old, pkg: pkg, preds: con.Preds, names: func(n string) (Val, bool) {
+		return &evalCtx{c: c, st: cur, old: old, pkg: pkg, preds: con.Preds, calleeFact: true, names: func(n string) (Val, bool) {
 			v, ok := env[n]
 			return v, ok
 		}}
@@ -150,6 +150,10 @@ func (c *FnCtx) applyContract(fr *frame, st *State, con *Contract, ca callArgs, 
 			continue
 		}
 		c.assume(st, post.boolOf(en.Expr))
+	}
+	for _, en := range con.AssumedEnsures {
+		c.assume(st, post.boolOf(en.Expr))
+		c.eng.assumedClauses[short+": "+en.Text] = true
 	}
 	return packResults(rt, vals)
 }
